@@ -1071,3 +1071,23 @@ func (tb *Table) Def() string {
 }
 
 var _ = bits.Len
+
+// Dump renders t as an expression annotated with native values (debugging).
+func (s *Store) Dump(t *Term, m Model, memo map[*Term]uint64, depth int) string {
+	if t.Op == OpConst {
+		return constLit(t.Sort, t.C)
+	}
+	if t.Op == OpVar {
+		return fmt.Sprintf("%s{%x}", t.Name, m[t.Name])
+	}
+	if depth > 12 {
+		return fmt.Sprintf("t%d{%x}", t.id, s.EvalMemo(t, m, memo))
+	}
+	var sb strings.Builder
+	sb.WriteString("(" + t.head())
+	for _, a := range t.Args {
+		sb.WriteString(" " + s.Dump(a, m, memo, depth+1))
+	}
+	fmt.Fprintf(&sb, "){%x}", s.EvalMemo(t, m, memo))
+	return sb.String()
+}
